@@ -154,6 +154,19 @@ pub fn gen(ctx: &mut Ctx) {
         scenario(ctx, &[(ch, cmd, data.clone())], &packets(ch, cmd, &data));
     }
 
+    // ---- a message after an abandoned transfer on the same channel (a receiver in any state), every cut
+    for (la, lb) in [(116usize, 116usize), (300, 10), (175, 175), (117, 58)] {
+        let ch = rand_chan(ctx);
+        let (a, b) = (ctx.rng.bytes(la), ctx.rng.bytes(lb));
+        let pa = packets(ch, CMDS[1], &a);
+        for keep in 1..pa.len() {
+            let mut stream = pa[..keep].to_vec();
+            stream.extend(packets(ch, CMDS[2], &b));
+            scenario(ctx, &[(ch, CMDS[2], b.clone())], &stream);
+            ctx.stat("recv.after_abandoned");
+        }
+    }
+
     // ---- exhaustive merges of 2-3 channels with short streams
     let combos: &[&[usize]] = if ctx.thorough { &[&[58, 58], &[117, 58], &[58, 58, 58], &[117, 117], &[10, 58, 117], &[117, 117, 58]] } else { &[&[58, 58], &[10, 58, 117]] };
     for lens in combos {
@@ -176,6 +189,17 @@ pub fn gen(ctx: &mut Ctx) {
         let mut streams: Vec<Vec<Vec<u8>>> = vec![];
         for c in &chans {
             let mut s = vec![];
+            // a receiver in any state: an abandoned transfer (or stray continuations) on the channel before its messages
+            if ctx.rng.below(3) == 0 {
+                let l = ctx.rng.range(58, 400) as usize;
+                let d = ctx.rng.bytes(l);
+                let mut ps = packets(*c, *ctx.rng.pick(&CMDS), &d);
+                let keep = ctx.rng.range(1, ps.len() as u64 - 1) as usize;
+                ps.truncate(keep.max(1));
+                if ctx.rng.below(3) == 0 { let mut p = c.to_vec(); p.push(ctx.rng.below(128) as u8); p.extend(ctx.rng.bytes(59)); ps.push(p); }
+                s.extend(ps);
+                ctx.stat("recv.abandoned_prefix");
+            }
             for _ in 0..ctx.rng.range(1, 3) {
                 let l = match ctx.rng.below(4) { 0 => ctx.rng.range(0, 57) as usize, 1 => ctx.rng.range(58, 300) as usize, 2 => ctx.rng.range(300, 1500) as usize, _ => rand_len(ctx).min(7608) };
                 let cmd = *ctx.rng.pick(&CMDS);
